@@ -85,7 +85,8 @@ def render_script(case, ebd_path):
             text = "/".join(p) if s["op"] == "docinto" and p else abs_text(p)
             out.append(f"{s['op']} {shlex.quote(text)}")
         else:
-            out.append(f"{s['op']} -m{s['mode']:04o}")
+            own = s.get("own", "")
+            out.append(f"{s['op']} -m{s['mode']:04o}" + (" -o0" if "o" in own else "") + (" -g0" if "g" in own else ""))
     return "\n".join(out) + "\n"
 
 
@@ -246,7 +247,7 @@ class Runner:
         i = 0
         for s in case["steps"]:
             i += 1
-            ev = dict(tid=tid, i=i, eapi=case["eapi"], pf="pn-1", pn="pn", op=s["op"], path=s["path"], mode=s["mode"], h=s["h"], a=s["a"],
+            ev = dict(tid=tid, i=i, eapi=case["eapi"], pf="pn-1", pn="pn", op=s["op"], path=s["path"], mode=s["mode"], own=s.get("own", ""), h=s["h"], a=s["a"],
                       rc=0, img=[], died="")
             if s["op"] == "call":
                 if ncall < len(results):
@@ -266,8 +267,8 @@ class Runner:
 # --------------------------------------------------------------------------- random scripts (code -> spec)
 NAMES = ["a.txt", "b.c", "my file", "x+y.so", "lib-1.2.a", "README", "n.html", "p.png", "s.css", "t.xml", "Makefile", "run.sh"]
 DIRN = ["sub", "d 1", "inc", "deep", "e"]
-COMPS = ["opt", "usr", "etc", "var", "x", "lib64", "share", "foo-1", "k"]
-MODES = [0o644, 0o600, 0o755, 0o700, 0o640, 0o750, 0o444, 0o555]
+COMPS = ["opt", "usr", "etc", "var", "x", "lib", "lib64", "share", "foo-1", "k", "kk", "doc", "doc-extra"]
+MODES = [0o644, 0o600, 0o755, 0o700, 0o640, 0o750, 0o444, 0o555, 0o4755, 0o2755, 0o6711, 0o1755, 0o2750, 0o1777]
 A0 = dict(items=[], rec=False, i18n="", dirs=[], src=[], srcabs=True, srctext="", tgt=[], tgtslash=False, rel=False, hx=[])
 
 
@@ -339,10 +340,10 @@ def rand_case(r_):
     steps = []
 
     def dest(op, path):
-        steps.append(dict(op=op, path=path, mode=0, h="-", a=A0))
+        steps.append(dict(op=op, path=path, mode=0, own="", h="-", a=A0))
 
     def mode(op):
-        steps.append(dict(op=op, path=[], mode=r_.choice(MODES), h="-", a=A0))
+        steps.append(dict(op=op, path=[], mode=r_.choice(MODES), own=r_.choice(["", "", "o", "g", "og"]), h="-", a=A0))
 
     def distinct(pool, k):
         out, seen = [], set()
@@ -381,6 +382,11 @@ def rand_case(r_):
                 a.update(src=src, srcabs=False, srctext="/".join(src))
             a["tgt"] = rand_path(r_, 1, 4)
             a["tgtslash"] = r_.random() < 0.1
+            if a["srcabs"] and len(a["tgt"]) >= 2 and r_.random() < 0.4:
+                # a source next to / below the link's directory whose name merely STARTS like that directory
+                d = a["tgt"][:-1]
+                src = r_.choice([d[:-1] + [d[-1] + r_.choice(["64", "-extra", "x"])], d, d[:-1] + [d[-1][:-1] or "q"]]) + rand_path(r_, 0, 2)
+                a.update(src=src, srctext="/" + "/".join(src))
         elif h == "dohard":
             files = [e for e in steps if e["op"] == "call" and e["h"] == "dobin" and e["a"]["items"] and e["a"]["items"][0]["kind"] == "file"]
             src = ["usr", "bin", files[0]["a"]["items"][0]["name"]] if files and not any(s["op"] == "into" for s in steps) else rand_path(r_, 2, 3)
@@ -396,7 +402,7 @@ def rand_case(r_):
             a["rec"] = r_.random() < 0.5 if h in ("doins", "dodoc", "dohtml") else False
             if h == "dohtml":
                 a["hx"] = r_.choice([[], [], ["txt"], ["xml", "sh"]])
-        steps.append(dict(op="call", path=[], mode=0, h=h, a=a))
+        steps.append(dict(op="call", path=[], mode=0, own="", h=h, a=a))
         from_eapi = dict(dohard=4, dohtml=7, dolib=7).get(h)
         if from_eapi is not None and eapi >= from_eapi:
             break  # banned there: the helper dies and ends the phase
@@ -417,11 +423,11 @@ def run(ck):
         "file identity = file content (every source file has a distinct content)",
     ]
     # ---- 1. laws and design model
-    ck.laws("Helpers_Laws", cfg_text='CONSTANTS\n  Comps = {"a", "b", "..", ".", ""}\n  MaxLen = 3\n',
-            label="Laws:RelTarget, all path pairs <= 3 components over {a,b,..,.,empty}", timeout=ck.pick(300, 1500))
+    ck.laws("Helpers_Laws", cfg_text='CONSTANTS\n  Comps = {"a", "ab", "..", ".", ""}\n  MaxLen = 3\n',
+            label="Laws:RelTarget, all path pairs <= 3 components over {a,ab,..,.,empty}", timeout=ck.pick(300, 1500))
     if not ck.quick:
-        ck.laws("Helpers_Laws", cfg_text='CONSTANTS\n  Comps = {"a", "b", "..", "."}\n  MaxLen = 4\n',
-                label="Laws:RelTarget, all path pairs <= 4 components over {a,b,..,.}", timeout=3000)
+        ck.laws("Helpers_Laws", cfg_text='CONSTANTS\n  Comps = {"a", "ab", "..", "."}\n  MaxLen = 4\n',
+                label="Laws:RelTarget, all path pairs <= 4 components over {a,ab,..,.}", timeout=3000)
     invs = "TreeShape OnePerPath JudgeAcceptsReference Idempotent UnderDestination ModesRequested".split()
     ck.mc("Helpers_MC", cfg_text=f"SPECIFICATION Spec\nCONSTANT MaxSteps = {ck.pick(2, 3)}\n" + "".join(f"INVARIANT {i}\n" for i in invs),
           workers=4, timeout=ck.pick(300, 3000), label=f"MC:Helpers_MC MaxSteps={ck.pick(2, 3)}")
@@ -447,7 +453,9 @@ def run(ck):
             by_tag = {}
             for c in cases:
                 by_tag.setdefault(c["tag"], []).append(c)
-            cases = [c for tag in sorted(by_tag) for c in r_.sample(by_tag[tag], min(len(by_tag[tag]), 7))]
+            # tags "all-*" are small families that are replayed completely in every tier
+            cases = [c for tag in sorted(by_tag)
+                     for c in (by_tag[tag] if tag.startswith("all-") else r_.sample(by_tag[tag], min(len(by_tag[tag]), 5)))]
         else:
             ck.exhaustive = True
         tid = 0
@@ -455,7 +463,7 @@ def run(ck):
             do(c, tid)
             tid += 1
         ck.sample(dict(direction="spec->code", eapi=cases[0]["eapi"], script=render_script(cases[0], "$EBD").splitlines()[11:]))
-        for _ in range(ck.pick(30, 500)):
+        for _ in range(ck.pick(20, 500)):
             c = rand_case(r_)
             do(c, tid, r_)
             tid += 1
@@ -489,5 +497,5 @@ def run(ck):
         if e["op"] == "call":
             ck.count()
             if (e["tid"], e["i"]) not in flagged:
-                ck.nontriv((e["h"], e["eapi"], repr(e["a"]), repr([(s["op"], s["path"], s["mode"]) for s in cases_by_tid[e["tid"]]["steps"][: e["i"] - 1] if s["op"] != "call"])))
+                ck.nontriv((e["h"], e["eapi"], repr(e["a"]), repr([(s["op"], s["path"], s["mode"], s.get("own", "")) for s in cases_by_tid[e["tid"]]["steps"][: e["i"] - 1] if s["op"] != "call"])))
     ck.extra["unjudged_calls"] = unjudged
